@@ -1,9 +1,14 @@
 /-
   C13 — Accepted definitions never compute an address outside their address type.
-  (work in progress: table obligation and the bound checks; the reachability theorem follows)
+
+  Model: `findMinMax` / `addressTypesBigEnough` (DDV/Gen/Passes.lean) mirror
+  `find_min_max_addresses` and the pass of the same name. The reachability theorem is proved for
+  the fragment without repeated blocks and without block refs; outside it the unchanged code
+  violates the property (known findings F6a, F6b) and the counterexample below is machine-checked.
 -/
 import DDV.Extracted.Tables
 import DDV.Gen.AddrSem
+import DDV.Gen.Lemmas.MinMax
 
 namespace DDV.Props.C13
 open DDV.Gen DDV.Extracted
@@ -22,5 +27,200 @@ theorem integer_ranges_are_twos_complement (t : Integer) :
       | .i8 => (-(2 ^ 7), 2 ^ 7 - 1) | .i16 => (-(2 ^ 15), 2 ^ 15 - 1) | .i32 => (-(2 ^ 31), 2 ^ 31 - 1)
       | .i64 => (-(2 ^ 63), 2 ^ 63 - 1)) := by
   cases t <;> decide
+
+
+/-! ### Reachable addresses -/
+
+def cnt (o : Object) : Nat := (o.repeat_.getD ⟨1, 0⟩).count
+def strd (o : Object) : Int := (o.repeat_.getD ⟨1, 0⟩).stride
+
+mutual
+/-- Every address the generated driver computes for a selected object lies in `[lo, hi]`:
+    a block instance `i` places its contents at `base + offset + i * stride`, and a selected
+    addressed object instance `j` inside is at that plus `address + j * stride`. (A ref is taken at
+    its own overriding address; a block ref's target contents are *not* followed — see
+    `NoBlockRefs`.) -/
+def InRangeObj (sel : Object → Bool) (lo hi : Int) (base : Int) : Object → Prop
+  | .block h os =>
+    ∀ i, i < cnt (.block h os) →
+      (lo ≤ base + h.addressOffset + (i : Int) * strd (.block h os) ∧
+       base + h.addressOffset + (i : Int) * strd (.block h os) ≤ hi) ∧
+      InRangeList sel lo hi (base + h.addressOffset + (i : Int) * strd (.block h os)) os
+  | .register r => sel (.register r) = true → ∀ j, j < cnt (.register r) →
+      lo ≤ base + r.address + (j : Int) * strd (.register r) ∧
+      base + r.address + (j : Int) * strd (.register r) ≤ hi
+  | .command c => sel (.command c) = true → ∀ j, j < cnt (.command c) →
+      lo ≤ base + c.address + (j : Int) * strd (.command c) ∧
+      base + c.address + (j : Int) * strd (.command c) ≤ hi
+  | .buffer b => sel (.buffer b) = true → lo ≤ base + b.address ∧ base + b.address ≤ hi
+  | .ref r => sel (.ref r) = true → ∀ a, (Object.ref r).address = some a → ∀ j, j < cnt (.ref r) →
+      lo ≤ base + a + (j : Int) * strd (.ref r) ∧ base + a + (j : Int) * strd (.ref r) ≤ hi
+def InRangeList (sel : Object → Bool) (lo hi : Int) (base : Int) : List Object → Prop
+  | [] => True
+  | o :: os => InRangeObj sel lo hi base o ∧ InRangeList sel lo hi base os
+end
+
+mutual
+/-- No block is repeated more than once. -/
+def NoRepeatedBlocks : Object → Prop
+  | .block h os => cnt (.block h os) = 1 ∧ NoRepeatedBlocksList os
+  | _ => True
+def NoRepeatedBlocksList : List Object → Prop
+  | [] => True
+  | o :: os => NoRepeatedBlocks o ∧ NoRepeatedBlocksList os
+end
+
+mutual
+theorem inRange_of_bounds (sel : Object → Bool) (lo hi : Int) :
+    ∀ (o : Object) (base : Int), NoRepeatedBlocks o → BoundsObj sel lo hi base o → InRangeObj sel lo hi base o
+  | .block h os, base, hn, hb => by
+    unfold NoRepeatedBlocks at hn
+    unfold BoundsObj at hb
+    unfold InRangeObj
+    intro i hlt
+    have hi0 : i = 0 := by have := hn.1; omega
+    subst hi0
+    have h1 := hb.1 0 (by have := hn.1; unfold cnt at this; simp only [Object.repeat_] at this; omega)
+    refine ⟨?_, ?_⟩
+    · simpa [strd, Object.repeat_] using h1
+    · have : base + h.addressOffset + ((0 : Nat) : Int) * strd (.block h os) = base + h.addressOffset := by
+        simp
+      rw [this]
+      exact inRangeList_of_bounds sel lo hi os _ hn.2 hb.2
+  | .register r, base, hn, hb => by
+    unfold BoundsObj at hb; unfold InRangeObj; exact hb
+  | .command c, base, hn, hb => by
+    unfold BoundsObj at hb; unfold InRangeObj; exact hb
+  | .buffer b, base, hn, hb => by
+    unfold BoundsObj at hb; unfold InRangeObj; exact hb
+  | .ref r, base, hn, hb => by
+    unfold BoundsObj at hb; unfold InRangeObj; exact hb
+theorem inRangeList_of_bounds (sel : Object → Bool) (lo hi : Int) :
+    ∀ (os : List Object) (base : Int), NoRepeatedBlocksList os → BoundsList sel lo hi base os → InRangeList sel lo hi base os
+  | [], base, hn, hb => by unfold InRangeList; trivial
+  | o :: os, base, hn, hb => by
+    unfold NoRepeatedBlocksList at hn
+    unfold BoundsList at hb
+    unfold InRangeList
+    exact ⟨inRange_of_bounds sel lo hi o base hn.1 hb.1, inRangeList_of_bounds sel lo hi os base hn.2 hb.2⟩
+end
+
+mutual
+theorem inRange_widen (sel : Object → Bool) (lo hi lo' hi' : Int) (h1 : lo' ≤ lo) (h2 : hi ≤ hi') :
+    ∀ (o : Object) (base : Int), InRangeObj sel lo hi base o → InRangeObj sel lo' hi' base o
+  | .block h os, base, hb => by
+    unfold InRangeObj at hb ⊢
+    intro i hlt
+    have := hb i hlt
+    exact ⟨⟨by omega, by omega⟩, inRangeList_widen sel lo hi lo' hi' h1 h2 os _ this.2⟩
+  | .register r, base, hb => by
+    unfold InRangeObj at hb ⊢
+    intro hf i hi; have := hb hf i hi; exact ⟨by omega, by omega⟩
+  | .command c, base, hb => by
+    unfold InRangeObj at hb ⊢
+    intro hf i hi; have := hb hf i hi; exact ⟨by omega, by omega⟩
+  | .buffer b, base, hb => by
+    unfold InRangeObj at hb ⊢
+    intro hf; have := hb hf; exact ⟨by omega, by omega⟩
+  | .ref r, base, hb => by
+    unfold InRangeObj at hb ⊢
+    intro hf a ha i hi; have := hb hf a ha i hi; exact ⟨by omega, by omega⟩
+theorem inRangeList_widen (sel : Object → Bool) (lo hi lo' hi' : Int) (h1 : lo' ≤ lo) (h2 : hi ≤ hi') :
+    ∀ (os : List Object) (base : Int), InRangeList sel lo hi base os → InRangeList sel lo' hi' base os
+  | [], base, hb => by unfold InRangeList; trivial
+  | o :: os, base, hb => by
+    unfold InRangeList at hb ⊢
+    exact ⟨inRange_widen sel lo hi lo' hi' h1 h2 o base hb.1, inRangeList_widen sel lo hi lo' hi' h1 h2 os base hb.2⟩
+end
+
+/-- The three selections of `address_types_big_enough`. -/
+def selRegister (o : Object) : Bool := isBlock o || match o with
+    | .register _ => true
+    | .ref r => (match r.override with | .register _ => true | _ => false)
+    | _ => false
+def selCommand (o : Object) : Bool := isBlock o || match o with
+    | .command _ => true
+    | .ref r => (match r.override with | .command _ => true | _ => false)
+    | _ => false
+def selBuffer (o : Object) : Bool := isBlock o || match o with
+    | .buffer _ => true
+    | _ => false
+
+/-- One address-type check of the pass, as a standalone function. -/
+def checkKind (os : List Object) (t : Option Integer) (sel : Object → Bool) : Prop :=
+  match t with
+  | none => True
+  | some ty => ∃ mn mx, findMinMax os sel = .ok (mn, mx) ∧ ty.minValue ≤ mn ∧ mx ≤ ty.maxValue
+
+/-- **C13, the analysis (all definitions).** Whenever the min/max analysis returns, zero and every
+    instance of every selected object — taken at the sum of its enclosing blocks' offsets — lie
+    between the returned bounds. -/
+theorem analysis_covers_every_visited_instance (sel : Object → Bool) (hb : ∀ h os, sel (.block h os) = true)
+    (os : List Object) (hs : SmallCountsList os) (mn mx : Int) (h : findMinMax os sel = .ok (mn, mx)) :
+    mn ≤ 0 ∧ 0 ≤ mx ∧ BoundsList sel mn mx 0 os :=
+  findMinMax_bounds sel hb os hs mn mx h
+
+/-- **C13 at full strength**, as a predicate: an accepted check of kind `sel` with address type
+    `ty` implies that every address the driver can compute for that kind fits `ty`. -/
+def Full (os : List Object) (ty : Integer) (sel : Object → Bool) : Prop :=
+  checkKind os (some ty) sel → InRangeList sel ty.minValue ty.maxValue 0 os
+
+/-- **C13 (partial: no repeated blocks; block refs' targets not followed).** If the pass's check
+    for a kind succeeds, every address computed for a selected object fits the address type.
+    (Repeat counts below 2^63+1, which any count the front ends accept satisfies on 64-bit hosts
+    only through `u64 as i64`; see `SmallCount`.) -/
+theorem reachable_in_range_partial (sel : Object → Bool) (hb : ∀ h os, sel (.block h os) = true)
+    (os : List Object) (hs : SmallCountsList os) (hn : NoRepeatedBlocksList os) (ty : Integer) :
+    Full os ty sel := by
+  intro hc
+  obtain ⟨mn, mx, hf, h1, h2⟩ := hc
+  have := (findMinMax_bounds sel hb os hs mn mx hf).2.2
+  exact inRangeList_widen sel mn mx _ _ h1 h2 os 0 (inRangeList_of_bounds sel mn mx os 0 hn this)
+
+theorem selRegister_blocks (h : BlockHead) (os : List Object) : selRegister (.block h os) = true := rfl
+theorem selCommand_blocks (h : BlockHead) (os : List Object) : selCommand (.block h os) = true := rfl
+theorem selBuffer_blocks (h : BlockHead) (os : List Object) : selBuffer (.block h os) = true := rfl
+
+/-- F6a witness: a block repeated 2 × 100 holding a register at 50, register address type `i8`. -/
+def f6aDevice : List Object :=
+  [.block { name := "b", addressOffset := 0, repeat_ := some ⟨2, 100⟩ }
+     [.register { name := "r", access := .rw, byteOrder := none, bitOrder := .lsb0, allowBitOverlap := false,
+                  allowAddressOverlap := false, address := 50, sizeBits := 8, reset := none,
+                  repeat_ := none, fields := [] }]]
+
+theorem f6a_accepted : findMinMax f6aDevice selRegister = .ok (0, 100) := by
+  rfl
+
+/-- **The full statement is false of the unchanged code** (known finding F6a): the analysis sees
+    the block instances at 0 and 100 and the register at 50, accepts `i8`, and the driver's
+    `b(1).r()` computes 150. The implementation agrees with the model on this input (it is in the
+    C13 correspondence corpus), so this is a defect of the code, recorded rather than repaired. -/
+theorem full_counterexample : ¬ Full f6aDevice .i8 selRegister := by
+  intro h
+  have hc : checkKind f6aDevice (some .i8) selRegister := ⟨0, 100, f6a_accepted, by decide, by decide⟩
+  have := h hc
+  unfold f6aDevice InRangeList InRangeObj at this
+  have h1 := (this.1 1 (by decide)).2
+  unfold InRangeList InRangeObj at h1
+  have h2 := h1.1 rfl 0 (by decide)
+  revert h2
+  decide
+
+/-- Non-vacuity of the partial theorem: the same device without the block repeat is accepted and
+    in range. -/
+example : Full [.block { name := "b", addressOffset := 20, repeat_ := none }
+     [.register { name := "r", access := .rw, byteOrder := none, bitOrder := .lsb0, allowBitOverlap := false,
+                  allowAddressOverlap := false, address := 50, sizeBits := 8, reset := none,
+                  repeat_ := some ⟨3, 10⟩, fields := [] }]] .i8 selRegister :=
+  reachable_in_range_partial _ selRegister_blocks _
+    (by simp [SmallCountsList, SmallCounts, SmallCount, Object.repeat_])
+    (by simp [NoRepeatedBlocksList, NoRepeatedBlocks, cnt, Object.repeat_]) _
+
+/-- … and its check does succeed (the hypothesis of `Full` is met): min 0, max 20 + 50 + 2·10. -/
+example : checkKind [.block { name := "b", addressOffset := 20, repeat_ := none }
+     [.register { name := "r", access := .rw, byteOrder := none, bitOrder := .lsb0, allowBitOverlap := false,
+                  allowAddressOverlap := false, address := 50, sizeBits := 8, reset := none,
+                  repeat_ := some ⟨3, 10⟩, fields := [] }]] (some .i8) selRegister :=
+  ⟨0, 90, rfl, by decide, by decide⟩
 
 end DDV.Props.C13
